@@ -149,8 +149,9 @@ def gen_all(ctx):
     rng = ctx.rng
     cases = []; xcases = []
     ctr = [0]
+    wflag = [False]           # ids starting with w: the driver builds a deliberately weak preconditioner (long PCG runs)
     def cid():
-        ctr[0] += 1; return "k%d" % ctr[0]
+        ctr[0] += 1; return ("wk%d" if wflag[0] else "k%d") % ctr[0]
     gctr = [0]
 
     def add_group(kindsolver, n, trip, b, x0, tol, maxit, tags, small, xstar=None, procs=PROCS, seq=True):
@@ -243,6 +244,25 @@ def gen_all(ctx):
         procs = tuple(P for P in PROCS if P <= n) or (1,)
         if ctx.tier == "quick": procs = tuple(rng.sample(procs, min(2, len(procs))))
         add_group("pcg", n, trip, b, x0, tol, maxit, ["pcg", tag], True, xs, procs=procs, seq=False)
+    # ---- PCG runs of 8..17 iterations (the residual is recomputed from scratch every 8th iteration): tolerance out of reach
+    for k in range(ctx.scale(5, 40)):
+        n = rng.choice([40, 60, 90])
+        trip = big_matrix(rng, n, sym=True)
+        xs = rand_vec(rng, n, True); b = matvec(n, trip, xs)
+        x0 = [Fraction(0)] * n if rng.random() < 0.6 else rand_vec(rng, n, True)
+        procs = tuple(rng.sample([1, 2, 3], 2)) if ctx.tier == "quick" else (1, 2, 3)
+        wflag[0] = True
+        add_group("pcg", n, trip, b, x0, Fraction(1, 2**80), rng.choice([8, 9, 10, 16, 17]), ["pcg_long", "generic"], False, xs, procs=procs, seq=False)
+        wflag[0] = False
+    # ---- badly scaled systems: right-hand side and start scaled by 2^-70 (||r0|| far below 1e-16; the stopping rule is relative)
+    for k in range(ctx.scale(10, 80)):
+        n = rng.choice([2, 3, 4, 6, 8]); solver = rng.choice(["cg", "bi", "bi"])
+        trip = rand_matrix(rng, n, "spd" if solver == "cg" else rng.choice(["nonsym", "spd"]))
+        sc = Fraction(1, 2 ** 70)
+        xs = [v * sc for v in rand_vec(rng, n)]; b = matvec(n, trip, xs)
+        x0 = [Fraction(0)] * n if rng.random() < 0.6 else [v * sc for v in rand_vec(rng, n)]
+        add_group(solver, n, trip, b, x0, rng.choice(TOLS[1:6]), rng.choice([1, 2, 2, 3]) if solver == "bi" else rng.choice([2, 3, 5, 8]),
+                  ["tiny_scale", "x0_zero"], True, xs)
     # ---- large systems: oracle only
     n_big = ctx.scale(7, 60)
     for k in range(n_big):
